@@ -9,6 +9,7 @@ import dataclasses
 import importlib
 import io
 import json
+import os
 import re
 import traceback
 import types
@@ -139,6 +140,99 @@ def cold_import_race(res: Result, npicks: int) -> None:
             res.violation(f"cold-import-race:{(second if second != path else first).split('(')[0]}",
                           f"({api}, {ver}, {et}): while one thread was inside the first import of the module, lookups gave importer={first!r} second={second!r}, expected {path}",
                           {"api": api, "version": ver, "type": et, "importer": first, "second": second})
+
+
+def _index_plan(k: int) -> tuple[list, int]:
+    """Workload of cold index schedule k: per thread a list of (function name, args, expected 'module:Class' or module name)."""
+    from kio.schema import index as sidx
+
+    rng = common.rng_for("C09", "cold-sched", k)
+    keys = {v: kk for kk, v in sidx.api_key_map.items()}
+    entries = [(api, ver, et.name, path) for api, vm in sidx.schema_name_map.items() for ver, tm in vm.items() for et, path in tm.items()]
+    nthreads = rng.randint(2, 3)
+    plan = []
+    for _ in range(nthreads):
+        ops = []
+        for api, ver, et, path in rng.sample(entries, 4):
+            if et in ("request", "response") and rng.random() < 0.8:
+                fn = rng.choice(("load_request_schema" if et == "request" else "load_response_schema", "load_payload_module"))
+                ops.append((fn, [keys[api], ver] + ([et] if fn == "load_payload_module" else []), path if fn != "load_payload_module" else path.split(":")[0]))
+            else:
+                fn = rng.choice(("load_entity_schema", "load_entity_module"))
+                ops.append((fn, [api, ver, et], path if fn == "load_entity_schema" else path.split(":")[0]))
+        plan.append(ops)
+    return plan, rng.randint(1, 3)
+
+
+def _run_index_plan(plan: list, d: int, horizon: int, seed: int) -> dict:
+    from kio import index
+    from kio.static.constants import EntityType
+
+    from ..sched import Scheduler
+
+    failures: list = []
+
+    def body(t: int) -> None:
+        for fn, args, want in plan[t]:
+            a = [EntityType[x] if isinstance(x, str) and x in EntityType.__members__ else x for x in args]
+            try:
+                out = getattr(index, fn)(*a)
+                got = out.__name__ if not isinstance(out, type) else f"{out.__module__}:{out.__qualname__}"
+            except BaseException as exc:  # noqa: BLE001
+                got = "raised " + repr(exc)[:160]
+            if got != want:
+                failures.append([t, fn, args, got, want])
+
+    sch = Scheduler(prefixes=(os.path.join(common.KIO_DIR, "index.py"),))
+    sch.start()
+    try:
+        s, done = sch.run([lambda t=t: body(t) for t in range(len(plan))], seed=seed, d=d, horizon=horizon)
+    finally:
+        sch.stop()
+    return {"failures": failures[:3], "done": done, "points": s.points, "trace": s.trace, "signature": s.signature()}
+
+
+def index_cold_schedule_child(k: int, horizon: int) -> dict:
+    import kio.index  # noqa: F401  (imported before the threads start; the schema modules are imported lazily by the lookups themselves,
+    # inside a single source line of kio/index.py, so no thread is ever preempted while it holds an import lock)
+
+    plan, d = _index_plan(k)
+    return _run_index_plan(plan, d, horizon, common.stable_hash("index-sched", common.seed(), k))
+
+
+def index_cold_schedules(res: Result, total: int) -> None:
+    """Threads doing the first lookups of a fresh interpreter under the baton scheduler (preemption at source lines of kio/index.py):
+    a lookup table that is filled lazily and published before it is complete shows up as a valid lookup that fails."""
+    import subprocess
+    import sys
+
+    sigs = set()
+    for k in range(total):
+        plan, d = _index_plan(k)
+        s0 = _run_index_plan(plan, 0, 1, 0)
+        horizon = max(6, s0["points"])
+        code = (f"import sys, json; sys.path.insert(0, {str(common.VERIF)!r}); from kv.checks import structure; "
+                f"print(json.dumps(structure.index_cold_schedule_child({k}, {horizon}), default=str))")
+        try:
+            p = subprocess.run([sys.executable, "-c", code], capture_output=True, text=True, timeout=300, cwd=str(common.VERIF),
+                               env=dict(os.environ, PYTHONHASHSEED="0", VERIF_SEED=str(common.seed())))
+            doc = json.loads(p.stdout.strip().splitlines()[-1])
+        except Exception as exc:  # noqa: BLE001
+            res.inconclusive_because(f"cold index schedule {k} did not report: {exc!r}")
+            continue
+        res.count("cold_index_schedules")
+        if not doc["done"]:
+            res.inconclusive_because(f"cold index schedule {k} did not finish")
+            continue
+        if doc["trace"]:
+            res.count("cold_index_schedules_with_switch")
+            sigs.add(doc["signature"])
+        if doc["failures"]:
+            t, fn, args, got, want = doc["failures"][0]
+            res.violation(f"cold-index-schedule:{fn}:{got.split('(')[0][:30]}",
+                          f"in a fresh interpreter under schedule (k={k}, d={d}, horizon={horizon}) thread {t}: {fn}{tuple(args)} gave {got}, expected {want}",
+                          {"schedule": {"k": k, "d": d, "horizon": horizon, "switches": doc["trace"]}, "failures": doc["failures"]})
+    res.coverage["distinct_cold_index_schedule_signatures"] = len(sigs)
 
 
 # ---------------------------------------------------------------------------------------
@@ -383,6 +477,7 @@ def run_c09(tier_: str) -> int:
                 continue
             expect_miss("random-name", rng.choice(fns_name), (name, rng.choice((0, 1, rng.randint(-3, 20))), rng.choice(ets)), (UE,))
     cold_import_race(res, 5 if tier_ == "quick" else 40)
+    index_cold_schedules(res, 24 if tier_ == "quick" else 400)
     res.coverage["miss_probes_by_kind"] = miss_kinds
     res.coverage["miss_exception_classes_seen"] = exc_seen
     res.coverage["exhaustive"] = True
